@@ -47,4 +47,15 @@ pub trait GraphLike {
     fn degree(&self, v: V) -> usize;
     fn vertex_data_opt(&self, v: V) -> Option<VData>;
     fn vertex_type(&self, v: V) -> VType;
+    fn phase(&self, v: V) -> i64;
+    fn vars(&self, v: V) -> Vec<u32>;
+    fn neighbor_vec(&self, v: V) -> Vec<V>;
+    fn connected(&self, s: V, t: V) -> bool;
+    fn add_vertex(&mut self, ty: VType) -> V;
+    fn add_edge_with_type(&mut self, s: V, t: V, et: EType);
+    fn add_edge_smart(&mut self, s: V, t: V, et: EType);
+    fn add_to_phase(&mut self, v: V, p: i64);
+    fn add_to_vars(&mut self, v: V, vars: &Vec<u32>);
+    fn remove_vertex(&mut self, v: V);
+    fn vertex_vec(&self) -> Vec<V>;
 }
